@@ -88,6 +88,14 @@ def run_reply(case, data, extra_cfg=None, exc=(True, True, True)):
     return verdict.replace('other:', '')
 
 
+def first_then_random(idx, combos, rng):
+    """the small discrete choices of a generator (mode, task, sub-function, option given / omitted ...): every combination once, in order, before anything is
+    drawn at random - which combination a run contains must not depend on the seed"""
+    if idx < len(combos):
+        return combos[idx]
+    return rng.choice(combos)
+
+
 def vb(rng, n):
     """value bytes for a field that padding, trimming or "is it all zeros" logic could touch: mostly random, but a quarter end in 0x00 after a non-zero
     prefix, a tenth are all zeros, a few begin with 0x00 - so that a genuine trailing zero meets every such rule in every run"""
@@ -300,9 +308,9 @@ def gen_wdbi(rng, n):
 
 def gen_ddd(rng, n):
     out = []
-    for _ in range(n):
-        how = rng.choice(['did', 'mem', 'clear', 'clearall'])
-        did = rng.choice([0xF300, 0xF3FF, 0x0001])
+    combos = [(h_, d_) for h_ in ('did', 'mem', 'clear', 'clearall') for d_ in (0xF300, 0xF3FF, 0x0001)]
+    for idx in range(n):
+        how, did = first_then_random(idx, combos, rng)
         if how == 'did':
             invoke = lambda c, did=did: c.dynamically_define_did(did, DynamicDidDefinition(source_did=0x1234, position=1, memorysize=2))
             sf, strict, q = 1, False, did
@@ -378,10 +386,11 @@ def gen_io(rng, n):
 
 def gen_rft(rng, n):
     out = []
-    for _ in range(n):
-        moop = rng.choice([1, 2, 3, 4, 5, 6])
+    combos = [(m_, d_) for m_ in (1, 2, 3, 4, 5, 6) for d_ in (None, (1, 2), (0, 0), (15, 15))]
+    for idx in range(n):
+        moop, dfi = first_then_random(idx, combos, rng)
         tol = rng.random() < 0.6
-        dfi = rng.choice([None, (1, 2), (0, 0), (15, 15)]) if moop in (1, 3, 4, 6) else None
+        dfi = dfi if moop in (1, 3, 4, 6) else None
         dfib = None if moop not in (1, 3, 4, 6) else ((dfi[0] << 4 | dfi[1]) if dfi else 0)
         lw = rng.choice([1, 2, 4, 8])
         ml = rng.choice([0, 1, 2 ** (8 * lw) - 1, rng.getrandbits(8 * lw)])
@@ -438,8 +447,8 @@ AUTH_ORDER = ['algorithmIndicator', 'challengeServer', 'certificateServer', 'pro
 def gen_auth(rng, n):
     out = []
     algo = bytes(range(16))
-    for _ in range(n):
-        task = rng.randrange(9)
+    for idx in range(n):
+        task = first_then_random(idx, list(range(9)), rng)
         rv = rng.randrange(256)
         good = bytes([task, rv])
         fields = []
@@ -479,11 +488,11 @@ def gen_dtc(rng, n, nrec_max=6):
     groups = [('rec4', [0x02, 0x0A, 0x0B, 0x0C, 0x0D, 0x0E, 0x0F, 0x13, 0x15, 0x17]), ('rec6', [0x08, 0x09]), ('g3', [0x14, 0x03]),
               ('count', [0x01, 0x07, 0x11, 0x12]), ('snapdtc', [0x04, 0x18]), ('snaprec', [0x05]), ('extdtc', [0x06, 0x10, 0x19]), ('extrec', [0x16]),
               ('wwh', [0x42, 0x55])]
-    for _ in range(n):
-        g, sfs = rng.choice(groups)
-        sf = rng.choice(sfs)
-        tol = rng.random() < 0.6
-        ign = rng.random() < 0.6
+    combos = [(g_, sf_, t_, i_) for g_, sfs_ in groups for sf_ in sfs_ for t_ in (True, False) for i_ in (True, False)]
+    for idx in range(n):
+        g, sf, tol, ign = first_then_random(idx, combos, rng)
+        if idx >= len(combos):
+            tol, ign = rng.random() < 0.6, rng.random() < 0.6
         k = rng.choice([1, 2, 2, 2, 3, 8]) if g in ('snapdtc', 'snaprec') else 2
         nrec = rng.choice([0, 1, 1, 2, 3, rng.randrange(0, nrec_max + 1)])
         ms = rng.randrange(256)
